@@ -13,8 +13,8 @@ def run_check(tier):
                         "observations compared by equality with the events A prescribes (bool of every request, target values, sentinel)"]
     quick = tier == "quick"
     # window 8: every alignment of keys/values against the window boundary with small documents
-    scen8 = mp.gen("MC_LoadScript", {"Mode": '"fields"', "MaxOps": 2 if quick else 3, "Widths": "{0}" if quick else "{0, 1, 2}",
-                                     "Pads": mp.tla_set([0, 5] if quick else range(0, 9))},
+    scen8 = mp.gen("MC_LoadScript", {"Mode": '"fields"', "MaxOps": 2 if quick else 3, "Widths": "{0, 5}" if quick else "{0, 1, 2, 5}",
+                                     "Pads": mp.tla_set([5] if quick else range(0, 9))},
                    ["SentinelIntact", "UnchangedOnFailure", "Export"], "fields-w8", chk, timeout=3000, xmx="16g")
     pairs = mp.replay(scen8, mp.MEDIA_SEEKABLE + ["nonseek"], 8, "f8")
     # real 256-byte window: paddings that move the object across the first boundary
